@@ -11,7 +11,8 @@
 (* response for a and requests b.                                          *)
 (*                                                                         *)
 (* Atoms are literal URI text, except RAWE9 = the raw (unescaped) UTF-8    *)
-(* bytes of U+00E9, which TLA+ strings cannot hold.                        *)
+(* bytes of U+00E9, which TLA+ strings cannot hold, and RAWFF / RAWFE =    *)
+(* the single bytes 0xff / 0xfe (not UTF-8 at all).                        *)
 (***************************************************************************)
 EXTENDS Integers, Sequences, FiniteSets, TLC, Json
 
@@ -25,7 +26,7 @@ Ports   == {"", ":", ":80", ":443", ":8080"}
 Segs    == {"a", "A", "%61", "~", "%7E", "%7e", "a%2Fb", "a%2fb", "%E9", "%e9", "RAWE9", "%C3%A9", "+", "%2B", "%20", "b"}
 Paths   == {<<>>, <<"">>} \cup {<<s>> : s \in Segs} \cup {<<"a", s>> : s \in {"b", "B", ".", "..", ""}}
            \cup {<<".", "a">>, <<"..", "a">>, <<"a", ".", "b">>, <<"a", "..", "b">>, <<"a", "b", "..">>, <<"x", "..", "a">>, <<"a", "", "b">>}
-Queries == {"NONE", "q=%%341", "q=%4%31", "q=a", "q=A", "q=%61", "q=~", "q=%7e", "q=%7E", "q=%E9", "q=%e9", "q=RAWE9", "q=%C3%A9", "q=a%2Fb", "q=a%2fb", "q=a&r=b", "r=b&q=a", "q=+", "q=%20"}
+Queries == {"NONE", "q=RAWFF", "q=RAWFE", "q=%%341", "q=%4%31", "q=a", "q=A", "q=%61", "q=~", "q=%7e", "q=%7E", "q=%E9", "q=%e9", "q=RAWE9", "q=%C3%A9", "q=a%2Fb", "q=a%2fb", "q=a&r=b", "r=b&q=a", "q=+", "q=%20"}
 Frags   == {"", "#frag"}
 Users   == {"", "user@"}
 
@@ -38,7 +39,8 @@ Bases ==
     U("http", "[::1]", ":8080", <<"a">>, "NONE", "", ""),
     U("http", "example.com", "", <<"~">>, "q=~", "", ""),
     U("http", "example.com", "", <<"%E9">>, "q=%E9", "", ""),
-    U("http", "example.com", "", <<"a">>, "q=%%341", "", "") }
+    U("http", "example.com", "", <<"a">>, "q=%%341", "", ""),
+    U("http", "example.com", "", <<"a">>, "q=RAWFF", "", "") }
   \cup (IF Thorough THEN
     { U("http", "example.com", ":8080", <<>>, "NONE", "", ""),
       U("http", "127.0.0.1", "", <<"a%2Fb">>, "q=a%2Fb", "", ""),
